@@ -187,10 +187,16 @@ class CodeBuilder:
         except NameError as e:
             name = get_name_error_name(e)
             raise UnresolvedTypeReferenceError(self.cls, name) from None
+        inherited_fields = set()
+        for ancestor in self.cls.__mro__[1:]:
+            if is_dataclass(ancestor):
+                inherited_fields.update(getattr(ancestor, _FIELDS))
         for fname, ftype in field_type_hints.items():
             if is_class_var(ftype) or is_init_var(ftype) or ftype is KW_ONLY:
                 continue
-            if recursive or fname in self.annotations:
+            if fname in self.annotations or (
+                recursive and fname in inherited_fields
+            ):
                 fields[fname] = ftype
         return fields
 
